@@ -23,6 +23,10 @@ def bases(tier, seed):
     out.append(S("MaizeGDD", "SandyLoam", seed=seed + 10, seasons=3, regime="hot", harvest_date="11/25", irr={"method": 4, "kw": {"NetIrrSMT": 60}}, iwc={"value": ["WP"]}))
     out.append(S("Barley", "SiltLoam", seed=seed + 11, seasons=3, field={"bunds": True, "z_bund": 0.1, "bund_water": 30}, irr={"method": 2}))
     out.append(S("Wheat", "Clay", seed=seed + 12, seasons=3, gw={"water_table": "Y", "dates": ["2001/04/20"], "values": [1.4]}, field={"mulches": True, "mulch_pct": 60, "f_mulch": 0.5}))
+    # a season that follows a crop failure (severe early drought kills the crop of one season only)
+    for j, (crop, soil) in enumerate([("Wheat", "SandyLoam"), ("Maize", "Sand"), ("Barley", "LoamySand")]):
+        out.append(S(crop, soil, seed=seed + 30 + j, seasons=3, regime="warm", iwc={"wc_type": "Pct", "value": [8]},
+                     events=[{"from": "2001/04/01", "to": "2001/09/30", "P": 0, "ET0": 8.5}] + ([{"from": "2002/04/20", "to": "2002/08/30", "P": 0, "ET0": 9}] if j == 1 else [])))
     if tier == "thorough":
         for j in range(70):
             crop = rnd.choice([c for c in L.CAL_CROPS if L.MATURITY_CD[c] < 200])
